@@ -239,6 +239,8 @@ func init() {
 			}
 			return docs
 		})...)
+		// next to "$defs", a stale legacy "definitions" block with the same names must not change anything
+		pcs = append(pcs, staleDefinitionVariants(pcs, c.N(80, 800))...)
 		res := runCases(c, pcs)
 		fails := verdictOracle(c, res, "required property", func(r *core.PResult, i int) bool {
 			// a required property WITH a default is filled, not demanded (the generator's stated convention; out of
@@ -410,6 +412,8 @@ func init() {
 			return docs
 		})
 		pcs = append(pcs, composed...)
+		// next to "$defs", a stale legacy "definitions" block with the same names must not change anything
+		pcs = append(pcs, staleDefinitionVariants(pcs, c.N(80, 800))...)
 		res := runCases(c, pcs)
 		fails := verdictOracle(c, res, "wrong JSON type", nil)
 		fails += typedDefsAcrossFiles(c)
@@ -581,6 +585,8 @@ func init() {
 				}
 			}
 		}
+		// next to "$defs", a stale legacy "definitions" block with the same names must not change anything
+		pcs = append(pcs, staleDefinitionVariants(pcs, c.N(80, 800))...)
 		res := runCases(c, pcs)
 		crossCheckSpec(c, res)
 		fails := 0
@@ -799,6 +805,8 @@ func init() {
 				}
 			}
 		}
+		// next to "$defs", a stale legacy "definitions" block with the same names must not change anything
+		pcs = append(pcs, staleDefinitionVariants(pcs, c.N(80, 800))...)
 		res := runCases(c, pcs)
 		res = append(res, tres...)
 		for _, r := range res {
